@@ -130,6 +130,31 @@ func genConcScenario(r *verifrt.Rand, i int) *concScenario {
 		}
 		s.Strat = append(s.Strat, st)
 	}
+	if i%6 == 5 {
+		// hand-over family: uploader 0 is stopped d1 steps after it reached the
+		// point of taking the upload lock, uploader 1 d2 steps after it reached that
+		// point, then 0 finishes, the others run, and 1 finishes last: for all
+		// d1, d2 in 0..8 (lock, look for the record, send, answer, record, remove,
+		// unlock) and a first answer that is none, a server error or success
+		j := i / 6
+		d1, d2, first := j%9, (j/9)%9, []int{0, 500, 200}[(j/81)%3]
+		if s.N < 3 {
+			s.N = 3
+		}
+		s.Script = []int{first}
+		for rd := range s.KillAt {
+			s.KillAt[rd] = make([]int, s.N)
+			for len(s.Skew[rd]) < s.N {
+				s.Skew[rd] = append(s.Skew[rd], s.Skew[rd][0])
+			}
+		}
+		ph := []verifrt.Phase{{Thread: 0, AtPt: "fs:OpenFile", PathSub: ".lock", Plus: d1}, {Thread: 1, AtPt: "fs:OpenFile", PathSub: ".lock", Plus: d2}, {Thread: 0, Until: -1}}
+		for u := 2; u < s.N; u++ {
+			ph = append(ph, verifrt.Phase{Thread: u, Until: -1})
+		}
+		ph = append(ph, verifrt.Phase{Thread: 1, Until: -1})
+		s.Strat[0] = c08strategy{Kind: "handover", Phases: ph}
+	}
 	return s
 }
 
@@ -194,7 +219,7 @@ func TestVerifUploadConc(t *testing.T) {
 			x.Inconc(s)
 		}
 	}
-	c07.Require("exclusive-create-lost", "report-existed-at-check", "strategy:park", "strategy:pct")
+	c07.Require("exclusive-create-lost", "report-existed-at-check", "strategy:park", "strategy:pct", "strategy:handover")
 	c08.Require("answer-with-broken-body", "second-report-file-for-week", "lock-contention", "status:200", "status:4xx", "status:5xx", "status:dropped", "kill", "kill-between-ack-and-marker", "kill-holding-lock", "retry-after-5xx", "all-acked-once")
 	for _, x := range []*verifrt.Result{c07, c08} {
 		if err := x.Write(); err != nil {
